@@ -5,11 +5,13 @@ package binfx
 
 import (
 	"context"
+	"errors"
 	"fmt"
 	"net"
 	"os"
 	"os/exec"
 	"path/filepath"
+	"runtime"
 	"sync"
 	"syscall"
 	"time"
@@ -138,19 +140,31 @@ func start(bin string, o Opts) (*Proc, error) {
 		return nil, err
 	}
 	cmd.Stdout, cmd.Stderr = lf, lf
+	// Pdeathsig makes sure no server process outlives a test binary that dies.  Linux delivers it when the *thread* that forked the
+	// child exits, not the process - and the Go runtime does retire threads.  (Found the hard way: long thorough runs lost servers to
+	// "signal: killed" and reported it as a request having terminated the server.)  The child is therefore started from a goroutine
+	// that is locked to its OS thread and stays parked in Wait on that very thread until the child has been reaped.
 	cmd.SysProcAttr = &syscall.SysProcAttr{Pdeathsig: syscall.SIGKILL}
-	if err := cmd.Start(); err != nil {
-		return nil, err
-	}
 	p := &Proc{Role: o.Role, Cmd: cmd, Dir: dir, API: fmt.Sprintf("127.0.0.1:%d", api), LogPath: logPath, exited: make(chan struct{})}
 	if o.Role == "leader" {
 		p.Repl = fmt.Sprintf("127.0.0.1:%d", repl)
 	}
+	started := make(chan error, 1)
 	go func() {
+		runtime.LockOSThread() // never unlocked: the thread ends with this goroutine, after the child is gone
+		if err := cmd.Start(); err != nil {
+			started <- err
+			return
+		}
+		started <- nil
 		p.exitErr = cmd.Wait()
 		_ = lf.Close()
 		close(p.exited)
 	}()
+	if err := <-started; err != nil {
+		_ = lf.Close()
+		return nil, err
+	}
 	if scheme == "http" {
 		conn, err := grpc.NewClient("passthrough:///"+p.API, grpc.WithTransportCredentials(insecure.NewCredentials()),
 			grpc.WithDefaultCallOptions(grpc.MaxCallRecvMsgSize(64*1024*1024), grpc.MaxCallSendMsgSize(64*1024*1024)))
@@ -192,6 +206,22 @@ func (p *Proc) Alive() bool {
 }
 
 func (p *Proc) ExitErr() error { return p.exitErr }
+
+// KilledFromOutside reports that the process ended by SIGKILL: a process cannot do that to itself in response to a request (a panic,
+// a fatal log call or os.Exit end it with an exit status; a runtime crash with SIGABRT/SIGSEGV), so somebody else killed it - the
+// kernel's OOM killer, an operator, a parent-death signal.  Checks treat that as "could not judge", never as a violation.
+func (p *Proc) KilledFromOutside() bool {
+	if p.Alive() {
+		return false
+	}
+	var ee *exec.ExitError
+	if errors.As(p.exitErr, &ee) {
+		if ws, ok := ee.Sys().(syscall.WaitStatus); ok && ws.Signaled() && ws.Signal() == syscall.SIGKILL {
+			return true
+		}
+	}
+	return false
+}
 
 func (p *Proc) LogTail(n int) string {
 	b, err := os.ReadFile(p.LogPath)
